@@ -37,6 +37,33 @@ type Connector struct {
 	// Forward: same-signal instances pass the payload on untouched and declare
 	// MutatesData=false (like the forward connector); they add nothing to the trail.
 	Forward bool `json:"forward,omitempty"`
+	// Route: "" — the connector just calls next.ConsumeX (everything listed as its receiver gets the
+	// data).  Otherwise a routing-style connector: its create function requires next to be a
+	// connector.<Signal>RouterAndConsumer (error otherwise, like contrib's routing connector) and every
+	// payload goes to router.Consumer(ids...) for a subset of router.PipelineIDs() sorted by their string
+	// form: "all", "one" (the first), "some" (every other one, starting with the first).
+	Route string `json:"route,omitempty"`
+}
+
+// RoutePick returns the indexes (into the sorted downstream pipeline ids) a
+// routing-style connector sends to.
+func RoutePick(mode string, n int) []int {
+	var out []int
+	for i := 0; i < n; i++ {
+		switch mode {
+		case "one":
+			if i == 0 {
+				out = append(out, i)
+			}
+		case "some":
+			if i%2 == 0 {
+				out = append(out, i)
+			}
+		default:
+			out = append(out, i)
+		}
+	}
+	return out
 }
 
 // Supports tells whether the connector factory supports from→to.
@@ -361,11 +388,29 @@ func Evaluate(t Topology) *Plan {
 				*out = append(*out, Delivery{Exporter: ExpKey(pl.Signal, e), Trail: append([]string(nil), trail...), Full: append([]string(nil), full...)})
 				continue
 			}
+			// downstream pipelines per destination signal (= per connector instance), in the order of their ids;
+			// a routing-style connector sends to a subset of them
+			byTo := map[string][]int{}
 			for _, j := range uses[e].asRec {
 				to := t.Pipelines[j].Signal
-				if !c.Supports(pl.Signal, to) {
+				if c.Supports(pl.Signal, to) {
+					byTo[to] = append(byTo[to], j)
+				}
+			}
+			var targets []int
+			for _, js := range byTo {
+				sort.Slice(js, func(a, b int) bool { return t.Pipelines[js[a]].ID() < t.Pipelines[js[b]].ID() })
+				if c.Route == "" {
+					targets = append(targets, js...)
 					continue
 				}
+				for _, k := range RoutePick(c.Route, len(js)) {
+					targets = append(targets, js[k])
+				}
+			}
+			sort.Ints(targets)
+			for _, j := range targets {
+				to := t.Pipelines[j].Signal
 				next := trail
 				if !(c.Forward && pl.Signal == to) {
 					next = ext(trail, ConnKey(pl.Signal, to, e))
@@ -454,7 +499,7 @@ func (t Topology) Canon() string {
 	for _, c := range t.Connectors {
 		ps := append([]string(nil), c.Pairs...)
 		sort.Strings(ps)
-		fmt.Fprintf(&b, "C %s %v %v\n", c.ID, ps, c.Forward)
+		fmt.Fprintf(&b, "C %s %v %v %q\n", c.ID, ps, c.Forward, c.Route)
 	}
 	pls := make([]string, 0, len(t.Pipelines))
 	for _, p := range t.Pipelines {
